@@ -28,6 +28,7 @@ _real_datetime = _dt_mod.datetime
 CURRENT: kernel.Sim | None = None  # the simulation the shims read
 _uuid_rng = _random_mod.Random(0)
 _prio_rng = _random_mod.Random(0)
+_fut_rng = _random_mod.Random(0)
 
 
 def _clock() -> kernel.SimClock:
@@ -123,6 +124,50 @@ class _OsShim:
         return _uuid_rng.getrandbits(8 * n).to_bytes(n, "big")
 
 
+class _OrderedFutures:
+    """for aiormq.base.FutureStore: its `set` of futures is popped in address order when a connection or channel
+    closes - a source of nondeterminism (which waiter is rejected first) that belongs to the simulator: insertion order,
+    and `pop()` is a seeded choice."""
+
+    __slots__ = ("d",)
+
+    def __init__(self):
+        self.d = {}
+
+    def add(self, f):
+        self.d[f] = None
+
+    def remove(self, f):
+        del self.d[f]
+
+    def discard(self, f):
+        self.d.pop(f, None)
+
+    def pop(self):
+        keys = list(self.d)
+        k = keys[_fut_rng.randrange(len(keys))] if len(keys) > 1 else keys[0]
+        del self.d[k]
+        return k
+
+    def __contains__(self, f):
+        return f in self.d
+
+    def __iter__(self):
+        return iter(list(self.d))
+
+    def __len__(self):
+        return len(self.d)
+
+    def __bool__(self):
+        return bool(self.d)
+
+
+def _future_store_init(self, loop):
+    self.futures = _OrderedFutures()
+    self.loop = loop
+    self.parent = None
+
+
 repid = None  # the imported package
 
 
@@ -183,6 +228,13 @@ def load_repid():
     if hasattr(mod, "random"):
         mod.random = _RandomShim
     aiormq.channel.os = _OsShim()
+    # pool threads / processes of synchronous actors and dependencies are simulated (kernel.SimExecutor)
+    am = sys.modules["repid._asyncify"]
+    am.ThreadPoolExecutor = kernel.SimExecutor
+    am.ProcessPoolExecutor = kernel.SimExecutor
+    import aiormq.base
+
+    aiormq.base.FutureStore.__init__ = _future_store_init
     # repid's log calls are executed for real (message formatting included - a log call that raises is a bug that
     # reaches the caller); the records go nowhere
     lg = logging.getLogger("repid")
@@ -210,6 +262,7 @@ def activate(sim: kernel.Sim) -> None:
     CURRENT = sim
     _uuid_rng.seed(kernel.derive_seed(sim.seed, "uuid"))
     _prio_rng.seed(kernel.derive_seed(sim.seed, "redis-priorities"))
+    _fut_rng.seed(kernel.derive_seed(sim.seed, "aiormq-future-store"))
 
 
 def deactivate() -> None:
